@@ -100,6 +100,54 @@ def run(ctx, rep):
             if idx is not None and val.get("k") == "ctor" and "PointIndex" in val.get("cls", "") and \
                     len(val.get("args", [])) == 1 and _tree_eq(val["args"][0], idx):
                 ok = True
+        # tolerant form: every element store puts PointIndex(v) (or v++) where v is an integer that starts at 0
+        # and only ever advances by one - whatever the loop / indexing style (at(i), [i], range-for, while)
+        if not ok:
+            stores = []
+            for blk2, rk2, tree2, ev2 in fn.roots():
+                if tree2 is None:
+                    continue
+                for n2 in walk(tree2):
+                    val2 = None
+                    if n2.get("k") == "call" and n2.get("opcall") and strip_targs(n2.get("fn") or "").endswith("::operator=") \
+                            and "PointIndex_tag" in (n2.get("objt") or n2.get("fn") or ""):
+                        val2 = (n2.get("args") or [None])[0]
+                    elif n2.get("k") == "bin" and n2.get("op") == "=" and "PointIndex_tag" in str((n2.get("l") or {}).get("t", "")):
+                        val2 = n2.get("r")
+                    if val2 is None:
+                        continue
+                    while isinstance(val2, dict) and val2.get("k") in ("copy", "cast", "icast"):
+                        val2 = val2.get("e")
+                    arg = None
+                    if isinstance(val2, dict) and val2.get("k") == "ctor" and len(val2.get("args", [])) == 1:
+                        arg = val2["args"][0]
+                        while isinstance(arg, dict) and arg.get("k") in ("copy", "cast", "icast"):
+                            arg = arg.get("e")
+                        if isinstance(arg, dict) and arg.get("k") == "un" and arg.get("op") == "++":
+                            arg = arg.get("e")
+                    stores.append(arg if isinstance(arg, dict) and arg.get("k") == "var" and "d" in arg else None)
+            if stores and all(a is not None for a in stores):
+                good = True
+                for a in stores:
+                    init0 = False
+                    for b3, ev3 in fn.events():
+                        if ev3["k"] == "decl" and (ev3.get("var") or {}).get("d") == a["d"]:
+                            e3 = ev3.get("e")
+                            init0 = isinstance(e3, dict) and e3.get("v") == 0
+                    adv_ok = True
+                    for blk3, rk3, tree3, ev3 in fn.roots():
+                        if tree3 is None:
+                            continue
+                        for n3 in walk(tree3):
+                            if n3.get("k") == "bin" and n3.get("op") in ("=", "+=", "-=", "*=") and \
+                                    isinstance(n3.get("l"), dict) and n3["l"].get("k") == "var" and n3["l"].get("d") == a["d"]:
+                                if not (n3["op"] == "+=" and isinstance(n3.get("r"), dict) and n3["r"].get("v") == 1):
+                                    adv_ok = False
+                            if n3.get("k") == "un" and n3.get("op") == "--" and isinstance(n3.get("e"), dict) and \
+                                    n3["e"].get("d") == a["d"]:
+                                adv_ok = False
+                    good &= init0 and adv_ok
+                ok = good
         # equivalent standard form: std::iota(begin, end, PointIndex(0))
         for n, b, rk, e in fn.calls():
             if strip_targs(n.get("fn") or "") == "std::iota":
